@@ -13,6 +13,7 @@ import (
 	"os/exec"
 	"path/filepath"
 	"regexp"
+	"runtime/debug"
 	"sort"
 	"strconv"
 	"strings"
@@ -85,7 +86,7 @@ func obls(repo, id string) int {
 	}
 	defer func() {
 		if r := recover(); r != nil {
-			out.Status, out.Msg = "panic", fmt.Sprint(r)
+			out.Status, out.Msg = "panic", fmt.Sprint(r)+"\n"+string(debug.Stack())
 			emit()
 		}
 	}()
